@@ -165,6 +165,10 @@ package chainntnfs
 //@   site call CommitSpendHint nth 0: assert details == nil && arg(1) == n.currentHeight && spendSet.details == nil
 //@   site call CommitSpendHint nth 1: assert details != nil && arg(1) == wrap(details.SpendingHeight, 32) && arg(1) <= n.currentHeight && spendSet.details == nil
 //@   site store spendNtfnSet.rescanStatus: assert value == rescanComplete && spendSet.details == nil
+//@   // (finding F29, spend half) the cached spend is tracked by its height before any client is served
+//@   loop 0 entry wrap(wrap(entry(details).SpendingHeight, 32) + n.reorgSafetyLimit, 32) > n.currentHeight ==> has(n.spendsByHeight, wrap(entry(details).SpendingHeight, 32))
+//@   site mapupdate spendsByHeight as rescan-height-bucket: assert arg(key) == wrap(entry(details).SpendingHeight, 32)
+//@   site mapupdate opSet as rescan-request-tracked: assert arg(key) == spendRequest
 //@   site store spendNtfnSet.details: assert details == nil && value == entry(details) && entry(details) != nil &&
 //@        wrap(entry(details).SpendingHeight, 32) <= n.currentHeight && ret(HasSpenderWitness)
 //@   site call dispatchSpendDetails: assert arg(details) == entry(details)
@@ -180,6 +184,11 @@ package chainntnfs
 //@   site store confNtfnSet.rescanStatus: assert value == rescanComplete && confSet.details == nil
 //@   site store confNtfnSet.details: assert details == nil && value == entry(details) && entry(details) != nil &&
 //@        entry(details).BlockHeight <= n.currentHeight
+//@   // details cached by a rescan are tracked for reorgs whether or not a client is registered at that moment (finding F29): by the
+//@   // time the per-client dispatch starts the height bucket exists and the request has been entered into it
+//@   loop 0 entry wrap(entry(details).BlockHeight + n.reorgSafetyLimit, 32) > n.currentHeight ==> has(n.confsByInitialHeight, entry(details).BlockHeight)
+//@   site mapupdate confsByInitialHeight as rescan-height-bucket: assert arg(key) == entry(details).BlockHeight
+//@   site mapupdate txSet as rescan-request-tracked: assert arg(key) == confRequest
 //@   site call dispatchConfDetails: domain 1 <= arg(ntfn).NumConfirmations && arg(ntfn).NumConfirmations <= n.reorgSafetyLimit &&
 //@        n.currentHeight + n.reorgSafetyLimit <= 4294967295 && arg(ntfn) != nil
 //@   site call dispatchConfDetails as same-details: assert arg(details).BlockHeight == entry(details).BlockHeight &&
